@@ -282,6 +282,8 @@ pub fn expand(e: &AEdit, tok: &str, ctx: &EditCtx, budget: Budget, r: &mut StdRn
                     // also the complete removal and a cut at every field boundary
                     out.push(parts.with_payload_bytes(&[]));
                     for (_, a, _) in field_ranges(ctx.layout, bytes.len()) {
+                        // after an earlier edit of a chain the payload may be shorter than the layout
+                        let a = a.min(bytes.len());
                         let m = if e.k == "trunc-tail" { &bytes[..a] } else { &bytes[a..] };
                         out.push(parts.with_payload_bytes(m));
                     }
